@@ -34,6 +34,7 @@ type thread struct {
 	finished bool
 	adopted  bool
 	adopted0 bool // adopted and not yet parked once
+	blocked  bool // let into a blocking action and not seen since
 }
 
 type event struct {
@@ -56,6 +57,9 @@ type Sched struct {
 	Interesting map[string]bool        // when non-nil: every point not listed here is quiet
 	Terminal  map[string]bool          // points after which the thread never reports again
 	Daemon    map[string]bool          // threads that may stay parked forever (idle library goroutines)
+	MayBlock  map[string]bool          // points whose action may really block (no enabledness predicate available): the thread is let into it and watched
+	BlockProbe time.Duration
+	nblocked  atomic.Int32
 	Override  map[string]func() bool   // enabledness by point name, overriding the hook's own predicate
 	Steps     []Step
 	Deadlock  bool
@@ -85,6 +89,8 @@ func New() *Sched {
 		Quiet:     map[string]bool{},
 		Terminal:  map[string]bool{},
 		Daemon:    map[string]bool{},
+		MayBlock:  map[string]bool{},
+		BlockProbe: 300 * time.Microsecond,
 		Override:  map[string]func() bool{},
 		MaxSteps:  100000,
 		StuckWait: 5 * time.Second,
@@ -119,13 +125,10 @@ func (s *Sched) Go(name string, f func()) {
 	s.mu.Unlock()
 	ready := make(chan struct{})
 	go func() {
-		var id int64
-		if UseGoid {
-			id = goid()
-			s.mu.Lock()
-			s.byGoid[id] = th
-			s.mu.Unlock()
-		}
+		id := goid() // once per thread
+		s.mu.Lock()
+		s.byGoid[id] = th
+		s.mu.Unlock()
 		close(ready)
 		s.park(th, "start", nil, 0, 0)
 		f()
@@ -153,7 +156,7 @@ func (s *Sched) park(th *thread, point string, enabled func() bool, a, b int64) 
 var UseGoid = false
 
 func (s *Sched) lookup(point string) *thread {
-	if UseGoid {
+	if UseGoid || s.nblocked.Load() > 0 {
 		id := goid()
 		s.mu.Lock()
 		defer s.mu.Unlock()
@@ -164,7 +167,7 @@ func (s *Sched) lookup(point string) *thread {
 	}
 	s.mu.Lock()
 	defer s.mu.Unlock()
-	if th := s.adoptLocked(point, 0); th != nil {
+	if th := s.adoptLocked(point, -1); th != nil {
 		return th
 	}
 	return s.cur
@@ -178,9 +181,10 @@ func (s *Sched) adoptLocked(point string, id int64) *thread {
 			}
 			th := &thread{name: r.name, grant: make(chan struct{}), adopted: true, adopted0: true}
 			s.threads[r.name] = th
-			if id != 0 {
-				s.byGoid[id] = th
+			if id == -1 {
+				id = goid() // once per adopted goroutine
 			}
+			s.byGoid[id] = th
 			return th
 		}
 	}
@@ -260,6 +264,10 @@ func (s *Sched) WaitParked(names ...string) error {
 
 func (s *Sched) apply(ev event) {
 	s.mu.Lock()
+	if ev.th.blocked {
+		ev.th.blocked = false
+		s.nblocked.Add(-1)
+	}
 	if ev.kind == 0 {
 		ev.th.parked = true
 	} else {
@@ -342,6 +350,15 @@ func (s *Sched) Run(choose Chooser) {
 			}
 		}
 		if len(en) == 0 {
+			if s.nblocked.Load() > 0 {
+				// somebody is inside a really blocking action and nobody can move: give it time to come back
+				select {
+				case ev := <-s.events:
+					s.apply(ev)
+					continue
+				case <-time.After(s.StuckWait / 5):
+				}
+			}
 			for _, th := range live {
 				if !s.Daemon[th.name] {
 					s.Deadlock = true
@@ -397,6 +414,27 @@ func (s *Sched) Run(choose Chooser) {
 		pick.grant <- struct{}{}
 		if terminal {
 			continue
+		}
+		if s.MayBlock[st.Point] {
+			select {
+			case ev := <-s.events:
+				s.apply(ev)
+				if ev.th == pick {
+					if ev.kind == 0 && s.ParkHook != nil {
+						s.ParkHook(pick.name, pick.point)
+					}
+					continue
+				}
+				// somebody else's event: fall through to the normal wait below
+			case <-time.After(s.BlockProbe):
+				s.mu.Lock()
+				pick.blocked = true
+				s.nblocked.Add(1)
+				s.cur = nil
+				s.mu.Unlock()
+				last = ""
+				continue
+			}
 		}
 		// wait for pick to park again or finish
 		var timer *time.Timer
